@@ -397,6 +397,8 @@ func isTerminalEvent(name string) bool {
 }
 
 type machineRun struct {
+	curCases []opCase          // cases of the role being executed (nil for the subscribe function)
+	curVars  map[string]SVal   // its parameters
 	kc    *kernelCtx
 	sp    *OpSpec
 	top   *ssa.Function
@@ -612,7 +614,74 @@ func (mr *machineRun) hooks(x0 *Exec) Hooks {
 		return mr.env(x0, st, vars)
 	})
 	tdCells := cellsWrittenBy(mr.site.Teardowns)
+	var cbFns []*ssa.Function
+	for _, t := range mr.site.Triples {
+		for _, a := range t.Args {
+			switch v := a.(type) {
+			case *ssa.MakeClosure:
+				if f, ok := v.Fn.(*ssa.Function); ok && !strings.HasSuffix(f.Name(), "$bound") {
+					cbFns = append(cbFns, f)
+				}
+			case *ssa.Function:
+				cbFns = append(cbFns, v)
+			}
+		}
+	}
+	cbCells := cellsWrittenBy(cbFns)
 	h.OnEvent = func(x *Exec, st *State, ev *Event) {
+		if strings.HasSuffix(ev.Name, ".SubscribeWithContext") || strings.HasSuffix(ev.Name, ".Subscribe") || strings.HasSuffix(ev.Name, ".Wait") {
+			// a (synchronous or awaited) source runs its observer's callbacks inside this call. The invariant must
+			// hold when they start (with this callback's ghost updates already applied); afterwards the cells they
+			// write and the ghosts are unknown, constrained only by the invariant.
+			if mr.curCases != nil && len(mr.sp.Inv) > 0 && st.Named["reentered"] != "true" {
+				for _, c := range mr.curCases {
+					envOld := mr.env(x, st, mr.curVars)
+					envOld.Old = true
+					guard := "true"
+					if c.Guard != "" {
+						if g, err := envOld.evalBool(c.Guard); err == nil {
+							guard = g
+						}
+					}
+					post := st.clone()
+					for _, up := range c.Updates {
+						if v, err := envOld.evalAny(up[1]); err == nil {
+							post.Ghost[up[0]] = x.termOf(st, v)
+						}
+					}
+					envPost := mr.env(x, post, mr.curVars)
+					var is []string
+					for _, ic := range mr.sp.Inv {
+						g, err := envPost.evalBool(ic.Text)
+						if err != nil {
+							g = "false"
+						}
+						is = append(is, g)
+					}
+					x.obl(st, "inv-at-reentry", imp(guard, and(is...)), "the invariant holds (ghost updates applied) when a nested subscription may run callbacks re-entrantly", ev.Pos)
+				}
+			}
+			for name := range cbCells {
+				for key, old := range st.Heap {
+					if key == name || strings.HasPrefix(key, name+".") || strings.HasPrefix(key, name+"#") {
+						st.Heap[key] = x.freshLike(st, key+"@callbacks", old, old.GoT)
+					}
+				}
+			}
+			if len(mr.sp.Inv) > 0 {
+				for _, g := range mr.sp.Ghosts {
+					st.Ghost[g.Name] = q(x.D.fresh(g.Name+"@after", g.Sort))
+				}
+				env := mr.env(x, st, mr.curVars)
+				for _, ic := range mr.sp.Inv {
+					if g, err := env.evalBool(ic.Text); err == nil {
+						st.assume(g)
+					}
+				}
+				st.Named["reentered"] = "true"
+			}
+			return
+		}
 		if !strings.HasPrefix(ev.Name, "destination.") {
 			return
 		}
@@ -693,6 +762,8 @@ func (mr *machineRun) runRole(role string, t *obsTriple, idx int, cases []opCase
 			vars[p] = params[i]
 		}
 	}
+	mr.curCases, mr.curVars = cases, vars
+	defer func() { mr.curCases, mr.curVars = nil, nil }()
 	mr.assumeRequiresInv(x, st, vars)
 	for _, g := range mr.sp.Given[role] {
 		t, err := mr.env(x, st, vars).evalBool(g)
@@ -751,6 +822,24 @@ func (mr *machineRun) runRole(role string, t *obsTriple, idx int, cases []opCase
 		pcs = append(pcs, e.st.PC)
 		add("nopanic", boolLit(e.ex.Kind != ExitPanic), "the callback does not panic", e.st.PC)
 		evs, closed := effective(e.st.Events, mr.sp.Track...)
+		// loop markers are part of the observable behaviour only when the contract speaks about the loop
+		mentionsLoop := false
+		for _, c := range cases {
+			for _, em := range c.Emits {
+				if strings.HasPrefix(em, "loop.") {
+					mentionsLoop = true
+				}
+			}
+		}
+		if !mentionsLoop {
+			var kept []Event
+			for _, ev := range evs {
+				if !strings.HasPrefix(ev.Name, "loop:") {
+					kept = append(kept, ev)
+				}
+			}
+			evs = kept
+		}
 		for _, ev := range evs {
 			if strings.HasSuffix(ev.Name, "WithContext") && len(ev.Args) > 0 && ev.Args[0].K == KU {
 				add("ctx-nonnil", not(eq(ev.Args[0].T, "nil")), fmt.Sprintf("on %s: no notification is forwarded with a nil context", role), e.st.PC)
@@ -823,6 +912,9 @@ func (mr *machineRun) runRole(role string, t *obsTriple, idx int, cases []opCase
 			if !closed && !specCloses {
 				post := e.st.clone()
 				for _, up := range c.Updates {
+					if e.st.Named["reentered"] == "true" {
+						break // the updates were applied before the nested subscription; the ghosts are its outcome now
+					}
 					v, err := envOld.evalAny(up[1])
 					if err != nil {
 						mr.u.Errs = append(mr.u.Errs, fmt.Sprintf("%s:%d: update of %s: %v", shortFile(c.Clause.File), c.Clause.Line, up[0], err))
@@ -913,9 +1005,11 @@ func (mr *machineRun) runInit() {
 	h := x.H
 	prevOnEvent := h.OnEvent
 	h.OnEvent = func(x *Exec, st *State, ev *Event) {
-		if prevOnEvent != nil {
-			prevOnEvent(x, st, ev)
-		}
+		defer func() {
+			if prevOnEvent != nil {
+				prevOnEvent(x, st, ev) // the cells written by callbacks are unknown after the subscription
+			}
+		}()
 		if strings.HasSuffix(ev.Name, ".SubscribeWithContext") || strings.HasSuffix(ev.Name, ".Subscribe") {
 			env := mr.env(x, st, map[string]SVal{})
 			var is []string
